@@ -27,6 +27,10 @@ def norm_sel(sel):
     return sorted((s["r"], s["norm"], tuple(sorted((q[0], q[1]) for q in s.get("params", [])))) for s in sel)
 
 
+def norm_lk(lk):
+    return (bool(lk["match"]), lk["norm"], tuple(sorted((q[0], q[1]) for q in lk["params"])))
+
+
 def ndecl(max_body):
     return 2 * 2 * sum(3 ** k for k in range(max_body + 1))
 
@@ -69,7 +73,8 @@ def events_of(g, real, ri_list):
             if o["err"]:
                 continue
             out = o["outs"][ri]
-            ev.append({"ev": "out", "ord": g["orders"][oi], "sel": out["sel"], "dsel": out["dsel"]})
+            ev.append({"ev": "out", "ord": g["orders"][oi], "sel": out["sel"], "dsel": out["dsel"],
+                       "lk": {"match": out["lk"]["match"], "norm": out["lk"]["norm"], "params": out["lk"]["params"]}})
     return ev
 
 
@@ -148,7 +153,7 @@ def report_rejection(ctx, binary, rej, origin):
     w = describe(rej["group"], rej["req"])
     w["class"] = rej["kind"]
     w["origin"] = origin
-    w["outs"] = [{"ord": o["ord"], "sel": o["sel"]} for o in rej["outs"]][:6]
+    w["outs"] = [{"ord": o["ord"], "sel": o["sel"], "lk": o["lk"]} for o in rej["outs"]][:6]
     if not rej2:
         # tolerated class?  (strict validation rejects shadow; if even strict accepts, it did not reproduce)
         raise Broken("rejection not reproduced: %s" % json.dumps(w)[:800])
@@ -263,7 +268,11 @@ def compare_and_judge(ctx, binary, groups, reals, origin, sample_frac, seen_case
             for oi in range(len(g["orders"])):
                 exp, out = g["exp"][oi][ri], real["orders"][oi]["outs"][ri]
                 ctx.cov["evaluations"] += 1
-                same = norm_sel(exp["sel"]) == norm_sel(out["sel"]) and norm_sel(exp["dsel"]) == norm_sel(out["dsel"])
+                if not (exp["sel"] or out["sel"] or exp["dsel"] or out["dsel"] or exp["lk"]["match"] or out["lk"]["match"]):
+                    same = True       # nothing matched, nothing selected on either side (the bulk of the space)
+                else:
+                    same = (norm_sel(exp["sel"]) == norm_sel(out["sel"]) and norm_sel(exp["dsel"]) == norm_sel(out["dsel"])
+                            and norm_lk(exp["lk"]) == norm_lk(out["lk"]))
                 for c in exp["cls"] + ([exp["v"]] if exp["v"] != "ok" else []):
                     classes[c] = classes.get(c, 0) + 1
                 if not same:
@@ -279,8 +288,10 @@ def compare_and_judge(ctx, binary, groups, reals, origin, sample_frac, seen_case
                         report_shadow(ctx, {"decls": g["decls"]}, rq, origin)
                 elif exp["v"] != "ok":
                     must.add(ri)          # judged again on the real outcome by trace validation
-                outs.append((norm_sel(out["sel"]), norm_sel(out["dsel"])))
-            if any(o != outs[0] for o in outs):
+                outs.append(out)
+            if any(o != outs[0] for o in outs) and any(
+                    (norm_sel(o["sel"]), norm_sel(o["dsel"]), norm_lk(o["lk"])) !=
+                    (norm_sel(outs[0]["sel"]), norm_sel(outs[0]["dsel"]), norm_lk(outs[0]["lk"])) for o in outs):
                 must.add(ri)
             key = (tuple(sorted((d["m"], render(d["h"], d["p"])) for d in g["decls"])), rq["m"], render(rq["h"], rq["p"]))
             if key not in seen_cases:
@@ -356,13 +367,20 @@ def run(ctx):
     # non-vacuity: the model of the code before the two fixes must be refuted; the shadow class must be in the space.
     # The five TLC runs are independent and run side by side.
     nd = ndecl(2)
-    npairs, ntriples = (50, 120) if not T else (0, 4000)
+    npairs, ntriples = (50, 120) if not T else (0, 2200)
     picks = set()
     while len(picks) < npairs:
         picks.add(tuple(sorted(ctx.rng.sample(range(1, nd + 1), 2))))
     while len(picks) < npairs + ntriples:
         picks.add(tuple(sorted(ctx.rng.sample(range(1, nd + 1), 3))))
-    write_picks(os.path.join(sd, "picks.ndjson"), sorted(picks))
+    write_picks(os.path.join(sd, "s_picks.ndjson"), sorted(picks))
+    for pre in ("", "g_", "p_"):
+        write_picks(os.path.join(sd, pre + "picks.ndjson"), [])
+    deep = set()
+    nd3 = ndecl(3)
+    while T and len(deep) < 450:
+        deep.add(tuple(sorted(ctx.rng.sample(range(1, nd3 + 1), ctx.rng.choice([2, 3, 3])))))
+    write_picks(os.path.join(sd, "t_picks.ndjson"), sorted(deep))
     prefix = "g_" if not T else "p_"
     W = 4 if not T else 8
 
@@ -376,11 +394,12 @@ def run(ctx):
         return r
     parallel(job, [("mc", "MC_quick.cfg" if not T else "MC_pairs.cfg", "I=>P exhaustive + case generation"),
                    ("mc", "GenC13.cfg", "I=>P on the seeded sample + case generation"),
+                   ] + ([("mc", "GenC13_deep.cfg", "I=>P on the seeded sample of the deeper space + case generation")] if T else []) + [
                    ("nv", "MC_nv_o5.cfg", "method map found by Lookup (O5)"),
                    ("nv", "MC_nv_norm.cfg", "fabricated normalised URL"),
-                   ("nv", "MC_nv_shadow.cfg", "shadow class present")], n=5)
+                   ("nv", "MC_nv_shadow.cfg", "shadow class present")], n=6)
 
-    groups = load_groups(sd, prefix) + load_groups(sd, "s_")
+    groups = load_groups(sd, prefix) + load_groups(sd, "s_") + load_groups(sd, "t_")
     if len(groups) < 100:
         raise Broken("case generation produced %d groups" % len(groups))
     ctx.log("generated %d groups, %d cases" % (len(groups), sum(len(g["orders"]) * len(g["reqs"]) for g in groups)))
@@ -391,7 +410,7 @@ def run(ctx):
     seen = set()
     ncases = sum(len(g["orders"]) * len(g["reqs"]) for g in groups)
     nreqs = sum(len(g["reqs"]) for g in groups)
-    frac = min(1.0, (6000.0 if not T else 60000.0) / max(1, ncases + nreqs))
+    frac = min(1.0, (6000.0 if not T else 40000.0) / max(1, ncases + nreqs))
     drift, blocks, nshadow = compare_and_judge(ctx, binary, groups, reals, "generated", frac, seen)
     ctx.log("executed %d cases; %d real outcomes differ from the model's; %d in the known shadow class; %d blocks to validate"
             % (ncases, drift, nshadow, len(blocks)))
@@ -458,6 +477,10 @@ def selftest(ctx, blocks):
     bad = json.loads(json.dumps(b))
     bad[i]["sel"] = []
     results.append(("selection dropped", bad))
+    # (e) the normalised URL reported by Lookup corrupted
+    bad = json.loads(json.dumps(b))
+    bad[i]["lk"]["norm"] += "/zz"
+    results.append(("Lookup's normalised URL corrupted", bad))
     for name, blk in results:
         n_ok, rej, _ = tlc_validate(ctx, [blk], "selftest", strict=False)
         if not rej:
